@@ -458,7 +458,9 @@ func TestVerif_C07_h1hostile(t *testing.T) {
 	opts := c07Options()
 	clients := make([]*Client, len(opts))
 	var reads int64
-	for i, o := range opts {
+	wedges := 0
+	mk := func(i int) {
+		o := opts[i]
 		c := C().SetTimeout(10 * time.Second)
 		c.SetDial(func(ctx context.Context, network, addr string) (net.Conn, error) {
 			var d net.Dialer
@@ -471,6 +473,9 @@ func TestVerif_C07_h1hostile(t *testing.T) {
 		c.SetLogger(nil)
 		o.setup(c)
 		clients[i] = c
+	}
+	for i := range opts {
+		mk(i)
 	}
 	g0 := runtime.NumGoroutine()
 	n := verifh.N(700, 20000)
@@ -539,13 +544,21 @@ func TestVerif_C07_h1hostile(t *testing.T) {
 		case <-time.After(15 * time.Second):
 			s.Count("wedged")
 			s.Observe(id, false, class, true, human, "call did not return within 15 s although the peer closed the connection and the client timeout is 10 s")
+			wedges++
+			mk(oi)
 		}
 		peer.mu.Lock()
 		delete(peer.scripts, path)
 		peer.mu.Unlock()
+		if wedges >= 3 {
+			break
+		}
 	}
 	// follow-up: every client still works
 	for i, c := range clients {
+		if wedges > 0 {
+			break
+		}
 		r := c.R()
 		if opts[i].req != nil {
 			opts[i].req(r, dir, 1<<30)
